@@ -8,6 +8,7 @@ from ..pathenum import enumerate_paths
 from ..tables import base_name
 from .. import resolverules as RR
 
+RETRY_INLINED = True
 LEVEL = 'other'
 
 ROLE = {'uriCopyAuthority': 'copy-authority', 'uriCopyPath': 'copy-path', 'uriMergePath': 'merge',
